@@ -243,6 +243,20 @@ pub fn run(cfg: &Cfg) -> (&'static str, Report, String, String) {
             }
         }
     }
+    // (f) every ASCII byte next to digits (the neighbours of '0'..='9' in the code table: '/' and ':', signs,
+    //     whitespace, NUL, DEL) at the front, in the middle and at the end, plus a few multi-byte neighbours
+    if cfg.mine(1) {
+        let mut around: Vec<String> = (0u8..=127).filter(|b| !cfg.miri() || [b'/', b':'].contains(b)).map(|b| (b as char).to_string()).collect();
+        around.extend(["\u{80}", "\u{660}", "\u{ff10}", "\u{2212}", "\u{1d7ce}"].map(String::from));
+        for c in &around {
+            for s in [c.clone(), format!("1{c}"), format!("{c}1"), format!("12{c}3"), format!("-{c}"), format!("-1{c}"), format!("-{c}1"), format!("0{c}0"), format!("25{c}"), format!("{c}{c}")] {
+                ints(&mut rep, &s);
+                bools(&mut rep, &s);
+                nontrivial(&mut rep, &s);
+            }
+        }
+        rep.ev("ascii-byte-sweep");
+    }
     // (e) seeded random digit strings
     let nrand = cfg.by(5, 2000, 30000);
     rep.merge(par_for(cfg, nrand, |i, r| {
